@@ -17,6 +17,7 @@ import (
 )
 
 type evalCtx struct {
+	argsOnly bool // havocReachable on behalf of a callee without contract: heap and ghost state of the values handed over only
 	fc       *FnCtx
 	st       *State
 	info     *types.Info
